@@ -138,6 +138,13 @@ func (g *Gen) Preamble() (*Pre, error) {
 	g.EmitDecls(&b)
 	for _, f := range g.famOrder {
 		fmt.Fprintf(&b, "(declare-const %s!0 %s)\n", f, g.families[f])
+		// the nil map has no entries
+		if strings.HasPrefix(f, "MD_") {
+			fmt.Fprintf(&b, "(assert (= (select %s!0 0) ((as const (Array Int Bool)) false)))\n", f)
+		}
+		if strings.HasPrefix(f, "MC_") {
+			fmt.Fprintf(&b, "(assert (= (select %s!0 0) 0))\n", f)
+		}
 	}
 	if err := g.EmitGhosts(&b); err != nil {
 		return nil, err
